@@ -229,9 +229,9 @@ func c06Configs(tier string) []c06Cfg {
 
 func init() {
 	mc.Register(&mc.Property{
-		ID:    "C06",
-		Level: "model_checking",
-		Rule: "every schedule (preemption-bounded DFS with happens-before state cache) of a reader that lists at the current revision R and then watches from R+1, against 1-2 writers (successful and failing writes, keys inside and outside the prefix) and optionally a compactor; for every revision R' of a received event and for the committed revision at quiescence (when the stream is still open), List at R' must equal the first list with the events up to R' applied",
+		ID:     "C06",
+		Level:  "model_checking",
+		Rule:   "every schedule (preemption-bounded DFS with happens-before state cache) of a reader that lists at the current revision R and then watches from R+1, against 1-2 writers (successful and failing writes, keys inside and outside the prefix) and optionally a compactor; for every revision R' of a received event and for the committed revision at quiescence (when the stream is still open), List at R' must equal the first list with the events up to R' applied",
 		Assume: []string{"event cache large enough not to evict (eviction is C05's subject)", "refused watches / refused reads give no verdict and are counted in the outcome histogram"},
 		Scenarios: func(tier string) []*mc.Scenario {
 			var out []*mc.Scenario
